@@ -271,3 +271,82 @@ theorem hamilton_sum (T W : Int) (hT : 0 < T) (hW : 0 < W) (ns : List Node)
       simp; omega
 
 end KoordVerif.C02
+
+namespace KoordVerif.C02
+
+/-! ### each index is bumped at most once: delta ∈ {base, base + 1} -/
+
+theorem entriesFrom_index_pairwise (T W : Int) (i : Nat) (ns : List Node) :
+    ((entriesFrom T W i ns).map (·.index)).Pairwise (· < ·) := by
+  induction ns generalizing i with
+  | nil => simp [entriesFrom]
+  | cons n ns ih =>
+    unfold entriesFrom
+    by_cases hw : n.weight ≤ 0
+    · rw [if_pos hw]; exact ih (i + 1)
+    · rw [if_neg hw]
+      simp only [List.map_cons, List.pairwise_cons]
+      refine ⟨?_, ih (i + 1)⟩
+      intro j hj
+      obtain ⟨e, he, rfl⟩ := List.mem_map.mp hj
+      have := entriesFrom_index T W (i + 1) ns e he
+      omega
+
+theorem entriesFrom_index_nodup (T W : Int) (i : Nat) (ns : List Node) :
+    ((entriesFrom T W i ns).map (·.index)).Nodup := by
+  have h := entriesFrom_index_pairwise T W i ns
+  exact h.imp (fun hab => by omega)
+
+theorem bump_getElem (ds : List Int) (i j : Nat) (hj : j < ds.length) :
+    (bump ds i)[j]'(by rw [bump_length]; exact hj) = ds[j] + (if i = j then 1 else 0) := by
+  unfold bump
+  rw [List.getElem_modify]
+  split <;> simp_all
+
+theorem foldl_bump_getElem (idxs : List Nat) (hnd : idxs.Nodup) (ds : List Int) (j : Nat) (hj : j < ds.length) :
+    (idxs.foldl bump ds)[j]'(by rw [foldl_bump_length]; exact hj) = ds[j] + (if j ∈ idxs then 1 else 0) := by
+  induction idxs generalizing ds with
+  | nil => simp
+  | cons i is ih =>
+    simp only [List.foldl_cons]
+    have hnd' := List.nodup_cons.mp hnd
+    rw [ih hnd'.2 (bump ds i) (by rw [bump_length]; exact hj)]
+    rw [bump_getElem ds i j hj]
+    by_cases hij : i = j
+    · subst hij
+      have : i ∉ is := hnd'.1
+      simp [this]
+    · have : ¬ j = i := fun h => hij h.symm
+      simp [hij, this]
+
+/-- every delta is the floor share or the floor share plus one. -/
+theorem hamilton_fair (T W : Int) (hT : 0 < T) (hW : 0 < W) (ns : List Node) (hne : ns ≠ [])
+    (j : Nat) (hj : j < ns.length) :
+    baseOf T W ns[j] ≤ (hamilton T W ns)[j]'(by rw [hamilton_length]; exact hj) ∧
+    (hamilton T W ns)[j]'(by rw [hamilton_length]; exact hj) ≤ baseOf T W ns[j] + 1 := by
+  have hc : ¬ (W ≤ 0 ∨ T ≤ 0 ∨ ns = []) := by
+    intro h; rcases h with h | h | h
+    · omega
+    · omega
+    · exact hne h
+  have key : ∀ (l : List Int) (hl : l = hamilton T W ns), baseOf T W ns[j] ≤ l[j]'(by rw [hl, hamilton_length]; exact hj) ∧
+      l[j]'(by rw [hl, hamilton_length]; exact hj) ≤ baseOf T W ns[j] + 1 := by
+    intro l hl
+    unfold hamilton at hl
+    rw [if_neg hc] at hl
+    simp only [] at hl
+    split at hl
+    · subst hl; simp
+    · subst hl
+      have hjb : j < (ns.map (baseOf T W)).length := by simp; exact hj
+      have hnd : (((entriesFrom T W 0 ns).mergeSort entryLe |>.take (T - (ns.map (baseOf T W)).sum).toNat).map (·.index)).Nodup := by
+        rw [List.map_take]
+        apply List.Nodup.sublist (List.take_sublist _ _)
+        exact ((List.mergeSort_perm (entriesFrom T W 0 ns) entryLe).map (·.index)).nodup_iff.mpr
+          (entriesFrom_index_nodup T W 0 ns)
+      rw [foldl_bump_getElem _ hnd _ j hjb]
+      simp only [List.getElem_map]
+      split <;> omega
+  exact key _ rfl
+
+end KoordVerif.C02
